@@ -5,7 +5,8 @@
 let beh_of c = match c with 'o' -> BOk | 'r' -> BRefuse | 'h' -> BHangConn | 'H' -> BHangRead | _ -> failwith "beh"
 let handle (w : string list) : string =
   match w with
-  | "sys" :: n :: f :: tcn :: tcm :: bat :: behs :: t0 :: toks ->
+  | (("sys" | "sysmp") as mode) :: n :: f :: tcn :: tcm :: bat :: behs :: t0 :: toks ->
+    let mp = (mode = "sysmp") in
     let cfg = { ntgt = nat_of_int (int_of_string n); f = z_of_int (int_of_string f); tconn = z_of_int (int_of_string tcn);
                 tcmd = z_of_int (int_of_string tcm); batch = (bat = "1");
                 behs = List.init (String.length behs) (fun i -> beh_of behs.[i]) } in
@@ -37,6 +38,9 @@ let handle (w : string list) : string =
               ^ " now=" ^ string_of_int (int_of_z s.now)
       | e0 :: r ->
         let (e, otc) = split_tc e0 in
+        if mp && e = "TI" && not (calm s) then
+          "REJECT at=" ^ string_of_int k ^ " event=TI time advanced while a thread could move (state not calm) now=" ^ string_of_int (int_of_z s.now)
+        else
         (match step cfg s (parse s e) with
          | Some s' ->
            (match otc with
